@@ -99,3 +99,8 @@ CLAIM = ("Lean theorem about the control-flow model: in Auto mode every returned
 LEVEL_NOTE = ("Trusted: Lean kernel (+3 standard axioms); trace-replay correspondence of the model; C06 for pseudoprime. The completeness "
               "half rests on exploration, stated as such.")
 TECHNIQUE = "Lean 4 proof (structural theorem over oracle model) + trace replay + exhaustive/structured exploration of the heuristic premise"
+
+
+def corpus_case(line):
+    req, facs = line.split("|")
+    return Case(req.strip(), k=False, tag="corpus|" + facs.strip())
